@@ -423,10 +423,12 @@ fn gen_matrix_long(rng: &mut Rng, m: usize, rare: &[usize]) -> Vec<[f32; K]> {
     let mut rows = vec![];
     for _ in 0..m {
         let mut r = [NINF; K];
+        // with rare symbols: they alone carry the best cell (the consensus has probability 2^(-e*M) and every other
+        // word reaching a top score is about as improbable: a density threshold anywhere above that cuts the tail)
+        let top = if rare.is_empty() { hi } else { hi - 1 };
         for c in r.iter_mut().take(4) {
-            *c = rng.range(lo, hi) as f32;
+            *c = rng.range(lo, top) as f32;
         }
-        // the rare symbols (if any) are the consensus
         for &a in rare {
             r[a] = hi as f32;
         }
